@@ -23,6 +23,8 @@ inductive Msg where
   | certificateStatus | nextProtocol
   | unknownType       -- a handshake message whose type byte `readHandshake` does not know
   | finishedBad       -- a Finished message whose verify_data differs from the local transcript's
+  | finishedTrailing  -- a Finished message with the right verify_data whose record holds further handshake bytes
+                      -- (`c.hand.Len() > 0` once `readFinished` has taken the message)
   | malformed         -- a handshake message of a known type whose body fails to unmarshal
   | oversizedMsg      -- a handshake header announcing more than maxHandshake (65536) bytes
   | fragment          -- a handshake record with data that does not complete a message
@@ -183,6 +185,9 @@ def step (c : Cfg) (s : State) (m : Msg) : Result :=
       | .fragment => .cont { s with pend := true, warn := 0 }
       | .oversizedMsg => .error .internalError
       | .malformed | .unknownType => .error .unexpectedMessage
+      -- where a Finished is awaited `readFinished` refuses what is left in `c.hand`; elsewhere a Finished is not
+      -- what the phase accepts: unexpected_message either way
+      | .finishedTrailing => .error .unexpectedMessage
       | .finishedBad =>
           if next c s.phase .finished = some none then .error .handshakeFailure else .error .unexpectedMessage
       | m =>
@@ -387,13 +392,26 @@ def knownSuites (gm : Bool) : List Nat := if gm then gmKnownSuites else tlsKnown
     knows (`makeClientHelloGM`, `makeClientHello` at version 0x0303) -/
 def helloSuites (gm : Bool) (configured : List Nat) : List Nat := configured.filter (knownSuites gm).contains
 
-/-- `clientHandshakeState.pickTLSVersion`: `mutualVersion` caps the server's version at 0x0303 and the result
-    must be at least TLS 1.0; the GMSSL client compares with 0x0101 -/
+/-- `clientHandshakeState.pickTLSVersion`: the server's version must pass `mutualVersion` UNCHANGED — a value above
+    the client's maximum, which `mutualVersion` would clamp to 0x0303, is not a version the client offered and is
+    refused — and must be at least TLS 1.0; the GMSSL client compares with 0x0101 -/
 def clientVersionOk (gm : Bool) (vers : Nat) : Bool :=
   if gm then vers == versionGMSSL
   else match mutualVersion vers with
     | none => false
-    | some w => decide (0x0301 ≤ w)
+    | some w => decide (0x0301 ≤ w) && w == vers
+
+/-- the `suiteTLS12` flag of `cipherSuites` (false for ids that are not in the table) -/
+def tls12Only (id : Nat) : Bool :=
+  match tlsSuiteTable.find? (·.1 = id) with
+  | none => false
+  | some (_, _, _, tls12, _) => tls12
+
+/-- `clientHandshakeState.pickCipherSuite`, second test: a suite that exists only in TLS 1.2 is refused when the
+    version just agreed (`c.vers`) is lower (the server's `setCipherSuite` has the same rule); the GMSSL client
+    has one version and no such flag -/
+def clientSuiteVersionOk (gm : Bool) (vers suite : Nat) : Bool :=
+  gm || !(decide (vers < versionTLS12) && tls12Only suite)
 
 inductive HelloVerdict where
   | accept
@@ -401,13 +419,20 @@ inductive HelloVerdict where
 deriving DecidableEq, Repr
 
 /-- What a client does with the version, suite and compression method of a ServerHello, in the order of the code
-    (`handshake`: version, then `pickCipherSuite`, then `processServerHello`); `offered` is the suite list of its
-    own hello. -/
+    (`handshake`: version, then `pickCipherSuite` — offered and known, then fit for the version —, then
+    `processServerHello`); `offered` is the suite list of its own hello. -/
 def clientHelloCheck (gm : Bool) (offered : List Nat) (vers suite comp : Nat) : HelloVerdict :=
   if !clientVersionOk gm vers then .reject .protocolVersion
   else if !(offered.contains suite && (knownSuites gm).contains suite) then .reject .handshakeFailure
+  else if !clientSuiteVersionOk gm vers suite then .reject .handshakeFailure
   else if comp != 0 then .reject .unexpectedMessage
   else .accept
+
+/-- `processServerHello` (both clients): a ServerHello that carries the session_ticket extension although the
+    client's hello did not (`hs.hello.ticketSupported` false: no session cache, or tickets disabled) is refused
+    with handshake_failure, like an unrequested NPN / ALPN extension -/
+def clientTicketCheck (offeredTicket helloTicket : Bool) : HelloVerdict :=
+  if helloTicket && !offeredTicket then .reject .handshakeFailure else .accept
 
 -- version limits configured on the server (`Config.MinVersion` / `Config.MaxVersion`) -------------------------------------
 
@@ -436,5 +461,27 @@ def helloAnswerLim (lo hi : Nat) (mode : Mode) (elliptic : Bool) (vers : Nat) (s
   | .reject => .reject
   | .gm w => answerOn (gmSuites.contains ·) w vers suites comps
   | .tls w => answerOn (tlsSuiteOk w elliptic) w vers suites comps
+
+-- version limits configured on the client ---------------------------------------------------------------------------
+
+/-- `pickTLSVersion` of a TLS client whose configuration gives `minVersion()` = `lo`, `maxVersion()` = `hi` (the
+    version it writes into its hello) -/
+def clientVersionOkLim (lo hi : Nat) (gm : Bool) (vers : Nat) : Bool :=
+  if gm then vers == versionGMSSL
+  else match mutualVersionLim lo hi vers with
+    | none => false
+    | some w => decide (0x0301 ≤ w) && w == vers
+
+/-- the suite list of a TLS client's hello when its maximum version is `hi` (`makeClientHello`: "Don't advertise
+    TLS 1.2-only cipher suites unless we're attempting TLS 1.2") -/
+def helloSuitesAt (hi : Nat) (gm : Bool) (configured : List Nat) : List Nat :=
+  (helloSuites gm configured).filter (fun s => gm || decide (versionTLS12 ≤ hi) || !tls12Only s)
+
+def clientHelloCheckLim (lo hi : Nat) (gm : Bool) (offered : List Nat) (vers suite comp : Nat) : HelloVerdict :=
+  if !clientVersionOkLim lo hi gm vers then .reject .protocolVersion
+  else if !(offered.contains suite && (knownSuites gm).contains suite) then .reject .handshakeFailure
+  else if !clientSuiteVersionOk gm vers suite then .reject .handshakeFailure
+  else if comp != 0 then .reject .unexpectedMessage
+  else .accept
 
 end Model.Handshake
